@@ -7,7 +7,10 @@ Line protocol for C01 (exact rationals):
 
 answers one line
 
-  `cs=<rat> hmin=<rat|none> grid=<ok|BAD> tree=<ok|BAD> cache=<ok|BAD> P <d>:<s>:<l0>|<l1>|… P …`
+  `cs=<rat> hmin=<rat|none> P <d>:<s>:<l0>|<l1>|… P …`
+
+and `self …` (same arguments, meant for small inputs) additionally
+`grid=<ok|BAD> tree=<ok|BAD> cache=<ok|BAD>` after `hmin=`,
 
 with one `P` block per (destination array d, source array s) in row order
 `d*narrays+s`; `l_i` is the brute-force neighbour list of destination particle
@@ -82,7 +85,7 @@ def mkTree (src : List (Pt Rat)) : Tree Rat :=
 
 def sortNat (l : List Nat) : List Nat := (l.toArray.qsort (· < ·)).toList
 
-def handleQ (rs tiny : Rat) (arrs : List (List (Pt Rat))) : String :=
+def handleQ (self : Bool) (rs tiny : Rat) (arrs : List (List (Pt Rat))) : String :=
   let hss := arrs.map (fun a => a.map (·.h))
   let cs := cellSize rs tiny hss
   let hm := hminScaled rs hss
@@ -94,9 +97,9 @@ def handleQ (rs tiny : Rat) (arrs : List (List (Pt Rat))) : String :=
     let dst := arrs.getD d []
     let src := arrs.getD s []
     let bf := dst.map (fun q => bruteForce rs src q)
-    let gr := dst.map (fun q => gridNbrs Rat.floor rs cs o src q)
+    let gr := if self then dst.map (fun q => gridNbrs Rat.floor rs cs o src q) else bf
     let t := mkTree src
-    let tr := dst.map (fun q => sortNat (treeNbrs rs src q t))
+    let tr := if self then dst.map (fun q => sortNat (treeNbrs rs src q t)) else bf
     -- cache model: fills in the order n-1 … 0 alternating between threads 1 and 0,
     -- then serial gets for every destination
     let find := fun i => match dst[i]? with
@@ -104,7 +107,7 @@ def handleQ (rs tiny : Rat) (arrs : List (List (Pt Rat))) : String :=
       | none => []
     let sched := ((List.range dst.length).reverse).map (fun i => (i % 2, i))
     let c0 := Cache.run find Cache.reset (sched.filter (fun td => td.2 % 3 ≠ 0))
-    let views := (List.range dst.length).map (fun i => (Cache.get find c0 i).2)
+    let views := if self then (List.range dst.length).map (fun i => (Cache.get find c0 i).2) else bf
     (d, s, bf, decide (gr = bf), decide (tr = bf), decide (views = bf)))
   let gridOk := res.all (fun r => r.2.2.2.1)
   let treeOk := res.all (fun r => r.2.2.2.2.1)
@@ -113,22 +116,23 @@ def handleQ (rs tiny : Rat) (arrs : List (List (Pt Rat))) : String :=
     "P " ++ toString d ++ ":" ++ toString s ++ ":" ++
       (if bf.isEmpty then "-" else "|".intercalate (bf.map (showList showNat))))
   "cs=" ++ showRat cs ++ " hmin=" ++ (match hm with | some m => showRat m | none => "none") ++
-    " grid=" ++ (if gridOk then "ok" else "BAD") ++
-    " tree=" ++ (if treeOk then "ok" else "BAD") ++
-    " cache=" ++ (if cacheOk then "ok" else "BAD") ++
+    (if self then " grid=" ++ (if gridOk then "ok" else "BAD") ++
+      " tree=" ++ (if treeOk then "ok" else "BAD") ++
+      " cache=" ++ (if cacheOk then "ok" else "BAD") else "") ++
     (if blocks.isEmpty then "" else " " ++ " ".intercalate blocks)
 
 def handle (line : String) : String :=
   match tokens line with
-  | "q" :: rest =>
+  | cmd :: rest =>
+    if cmd = "q" ∨ cmd = "self" then
     (match groups "A" rest with
      | [] => "bad-op"
      | hd :: gs =>
        let kv := kvs hd
        match (lookup kv "rs") >>= parseRat?, (lookup kv "tiny") >>= parseRat?, gs.mapM parseArr with
-       | some rs, some tiny, some arrs => handleQ rs tiny arrs
+       | some rs, some tiny, some arrs => handleQ (cmd = "self") rs tiny arrs
        | _, _, _ => "bad-op")
-  | "cell" :: rest =>
+    else if cmd = "cell" then
     (match groups "H" rest with
      | [] => "bad-op"
      | hd :: gs =>
@@ -139,6 +143,7 @@ def handle (line : String) : String :=
          "cs=" ++ showRat (cellSize rs tiny hss) ++ " hmin=" ++
            (match hminScaled rs hss with | some m => showRat m | none => "none")
        | _, _, _ => "bad-op")
+    else "bad-op"
   | _ => "bad-op"
 
 end PysphVerif.Driver.C01
